@@ -47,6 +47,11 @@ type Outer struct {
 	Opt int64 `graphql:",optional"`
 }
 
+type ListsF struct {
+	Ids []int64
+	X   *int64
+}
+
 type sink struct {
 	calls int
 	last  interface{}
@@ -153,6 +158,16 @@ func build() *fixture {
 	nonStr := append(append(append([]val{}, num...), boolv...), append(obj, lst...)...)
 
 	add := func(t argType) { fx.types = append(fx.types, t) }
+	qo.FieldFunc("echo_lists", func(args struct {
+		Ids    []int64
+		Opt    []*int64
+		F      ListsF
+		Nested [][]int64
+	}) bool {
+		sk.calls++
+		sk.last = []interface{}{args.Ids, args.Opt, args.F.Ids, args.F.X, args.Nested}
+		return true
+	})
 	qo.FieldFunc("echo_multi", func(args struct {
 		A *int64
 		B *int64
@@ -473,10 +488,40 @@ func run(rp *explore.Report, tier string) {
 			expectValue(multi, "several-variables", fmt.Sprintf("query(%s) { echo_multi(a: $a, b: $b, s: $s) }", strings.Join(decls, ", ")), vars, want)
 		}
 	}
+	// variables as elements of list literals, as fields of object literals and inside nested lists: every subset of
+	// five positions is supplied through a variable, the rest literally; the resolver must see the same value
+	lists := &argType{name: "lists"}
+	lwant := []interface{}{[]int64{1, 2, 3}, []*int64{ptrOf(int64(4)), ptrOf(int64(5))}, []int64{6}, ptrOf(int64(7)), [][]int64{{8, 9}, {10}}}
+	for mask := 0; mask < 32; mask++ {
+		pos := func(bit int, lit string, name string) string {
+			if mask&(1<<bit) != 0 {
+				return "$" + name
+			}
+			return lit
+		}
+		vars := map[string]interface{}{}
+		var decls []string
+		for bit, nv := range []struct {
+			n string
+			v float64
+		}{{"a", 2}, {"b", 5}, {"c", 6}, {"d", 7}, {"e", 9}} {
+			if mask&(1<<bit) != 0 {
+				vars[nv.n] = nv.v
+				decls = append(decls, "$"+nv.n+": int64")
+			}
+		}
+		head := ""
+		if len(decls) > 0 {
+			head = "query(" + strings.Join(decls, ", ") + ") "
+		}
+		q := fmt.Sprintf("%s{ echo_lists(ids: [1, %s, 3], opt: [4, %s], f: {ids: [%s], x: %s}, nested: [[8, %s], [10]]) }",
+			head, pos(0, "2", "a"), pos(1, "5", "b"), pos(2, "6", "c"), pos(3, "7", "d"), pos(4, "9", "e"))
+		expectValue(lists, "variable-inside-literal", q, vars, lwant)
+	}
 	rp.AddOutcome(fmt.Sprintf("types=%d", len(fx.types)))
 }
 
 func init() {
 	reg.Register(&reg.Harness{Property: "C18", Name: "c18/arguments", Level: "exploration", Run: run,
-		Rule: "one echo field per argument type (all int/uint widths, named int/string, float32/64, bool, string, enum, []byte, time.Time, text-unmarshaler, pointers, optional-tagged, lists incl. nested and of pointers, nested input objects) x boundary values x transport {literal, variable, default used (absent / null), default ignored}, plus one three-argument field fed by three variables in every combination of {default, none} x {absent, null, value} and every declaration order; oracle: the Go value recorded by the resolver equals the value sent, exactly one resolver call; wrong JSON kinds, missing required and unknown arguments are client errors with zero resolver calls; omitted optional arrives as nil/zero"})
+		Rule: "one echo field per argument type (all int/uint widths, named int/string, float32/64, bool, string, enum, []byte, time.Time, text-unmarshaler, pointers, optional-tagged, lists incl. nested and of pointers, nested input objects) x boundary values x transport {literal, variable, default used (absent / null), default ignored}, plus one three-argument field fed by three variables in every combination of {default, none} x {absent, null, value} and every declaration order, plus variables as elements of list literals / fields of object literals / inside nested lists (all 32 subsets of five positions); oracle: the Go value recorded by the resolver equals the value sent, exactly one resolver call; wrong JSON kinds, missing required and unknown arguments are client errors with zero resolver calls; omitted optional arrives as nil/zero"})
 }
